@@ -203,7 +203,18 @@ func init() {
 		k.PRich = 30
 		k.PWorldFallback = 30
 		k.PCall = 15
+		k.PWarm = 60
 		ec := gen.NewTG(t, k).Case()
+		// entries the script does not ask for: another spelling of a declared name, unknown
+		// names, the empty name (the map belongs to the caller and must come back unchanged)
+		if gen.Chance(t, "c11.extrakeys", 20) {
+			for _, d := range ec.Script.Vars {
+				if val, ok := ec.Vars[d.Name]; ok && gen.Chance(t, "c11.extrakey", 50) {
+					ec.Vars[gen.Pick(t, "c11.extrakey.form", []string{"$", " ", "vars."})+d.Name] = val
+				}
+			}
+			ec.Vars[gen.Pick(t, "c11.extrakey.other", []string{"unused", "", "$", "$unused"})] = "x"
+		}
 		// determinism covers failures too: sometimes one variable carries an ill-formed or
 		// out-of-range text (the same outcome must come back every time)
 		if gen.Chance(t, "c11.badvar", 25) {
@@ -231,6 +242,10 @@ func init() {
 
 // variantVars rebinds the account variables of the case (to world and to other accounts).
 func variantVars(ec *gen.ExecCase) map[string]string {
+	if ec.Warm != nil {
+		// the generator's own second assignment: values of every type changed
+		return ec.Warm
+	}
 	alt := map[string]string{}
 	changed := false
 	i := 0
@@ -336,6 +351,40 @@ func checkC11(c any) *ev.Verdict {
 		res, err := pr.RunWithFeatureFlags(context.Background(), vars, store, fl)
 		return hx.Normalise(res, err)
 	}
+	// (e) isolation between different scripts: the same script without one of its plain
+	// declarations (its uses stay) is run before and after the runs of the full script; what it
+	// gives must not depend on what another script bound in between
+	var pr2 *numscript.ParseResult
+	var text2 string
+	for i, d := range ec.Script.Vars {
+		if d.Origin == nil {
+			s2 := ec.Script.Clone()
+			s2.Vars = append(append([]gen.VarDecl{}, s2.Vars[:i]...), s2.Vars[i+1:]...)
+			text2 = gen.PrintCanonical(s2)
+			p2 := numscript.Parse(text2)
+			if len(p2.GetParsingErrors()) == 0 {
+				pr2 = &p2
+			}
+			break
+		}
+	}
+	runOther := func() (out hx.Real) {
+		defer func() {
+			if r := recover(); r != nil {
+				out.Panic = fmt.Sprint(r)
+			}
+		}()
+		vars := map[string]string{}
+		for k, x := range ec.Vars {
+			vars[k] = x
+		}
+		res, err := pr2.RunWithFeatureFlags(context.Background(), vars, staticStore(ec), flags)
+		return hx.Normalise(res, err)
+	}
+	var otherBefore hx.Real
+	if pr2 != nil {
+		otherBefore = runOther()
+	}
 	var first hx.Real
 	for ki, kind := range kinds {
 		store, snap := kind.mk()
@@ -394,6 +443,13 @@ func checkC11(c any) *ev.Verdict {
 		}
 	}
 	outcomeLabel(first, v)
+	if pr2 != nil {
+		otherAfter := runOther()
+		if otherBefore.Panic == "" && otherAfter.Panic == "" && exactSummary(otherBefore) != exactSummary(otherAfter) {
+			return v.Failf("cross-script-state", "the script %q (one declaration of the case's script removed) gave %s before the case's script was run and gives %s afterwards", text2, exactSummary(otherBefore), exactSummary(otherAfter))
+		}
+		v.Label("other-script")
+	}
 	// (a') re-entrancy across different inputs: a run with other variable values on the same
 	// parsed script must give what a fresh parse gives, and must not change what the original
 	// variables give afterwards
